@@ -2219,3 +2219,6 @@ def replay(ctx, data):
     finally:
         shutil.rmtree(root, ignore_errors=True)
     return False
+
+
+DRIVER_OPS = ["prn"]   # per-area driver executable(s) this check talks to (built before any worker is forked)
